@@ -104,10 +104,20 @@ def real_tangermeme():
     return tangermeme
 
 
+_CONFIRMED = {}
+REPLAY_CAP = 3
+
+
 def violation(key, what, replay_input, replay_fn):
-    """replay the concrete counterexample on the real build; returns the violation record"""
+    """replay the concrete counterexample on the real build; returns the violation record.  Once a failure key has been
+    confirmed REPLAY_CAP times in this worker process, further counterexamples of the same key are recorded without being
+    replayed (reproduced = "skipped"); they never count on their own."""
+    if _CONFIRMED.get(key, 0) >= REPLAY_CAP:
+        return {"key": key, "what": what, "replay": replay_input, "reproduced": "skipped", "detail": "not replayed: this failure key was already confirmed %d times in this worker" % REPLAY_CAP}
     try:
         ok, detail = replay_fn(replay_input)
     except Exception as e:   # replay harness problem => not reproduced
         ok, detail = False, "replay raised %s: %s" % (type(e).__name__, e)
+    if ok:
+        _CONFIRMED[key] = _CONFIRMED.get(key, 0) + 1
     return {"key": key, "what": what, "replay": replay_input, "reproduced": bool(ok), "detail": detail}
